@@ -594,7 +594,12 @@ class IterativeIASolverBaseClass(IASolverBaseClass):
         # Method called before the _updateW method
         self._before_initialize_W_func()
 
-        self._W = self._closed_form_ia_solver.W
+        # Unit Frobenius norm also for more than one stream (as in the
+        # initialization from the alternating minimizations solver)
+        self._W = np.empty(self.K, dtype=np.ndarray)
+        for k in range(self.K):
+            Wk = self._closed_form_ia_solver.W[k]
+            self._W[k] = Wk / np.linalg.norm(Wk, 'fro')
 
     def _initialize_F_and_W_from_alt_min(self, Ns: IntOrIntSequence,
                                          P: np.ndarray) -> None:
